@@ -404,9 +404,12 @@ pub fn split_inline_divert(content: &str) -> Option<(&str, &str)> {
     }
 }
 
+/// Splits the divert off the end of a choice line. The text keeps the blanks before
+/// the arrow: the divert comes before the line break of the choice line, so the text
+/// joins the first line of the target (`* The man -> find_help`: `The man You search.`).
 pub fn split_inline_choice_divert(input: &str) -> Result<(&str, Option<Divert>), CompilerError> {
     if let Some((text, divert_part)) = split_inline_divert(input) {
-        return Ok((text.trim_end(), Some(parse_divert(divert_part)?)));
+        return Ok((text, Some(parse_divert(divert_part)?)));
     }
 
     Ok((input, None))
